@@ -377,8 +377,13 @@ func (adb *AccountsDB) loadDataTrie(accountHandler baseAccountHandler) error {
 
 	dataTrie := adb.dataTries.Get(accountHandler.AddressBytes())
 	if dataTrie != nil {
-		accountHandler.SetDataTrie(dataTrie)
-		return nil
+		// the held trie is reused only if it is the trie of this version of the account: after the account was
+		// removed, created again and these changes were reverted, the held trie is the one of the dropped version
+		heldRootHash, errRootHash := dataTrie.RootHash()
+		if errRootHash == nil && bytes.Equal(heldRootHash, accountHandler.GetRootHash()) {
+			accountHandler.SetDataTrie(dataTrie)
+			return nil
+		}
 	}
 
 	dataTrie, err := adb.mainTrie.Recreate(accountHandler.GetRootHash())
